@@ -12,6 +12,7 @@ import (
 	"fmt"
 	"math/rand"
 	"os"
+	"runtime"
 	"sort"
 	"sync"
 	"sync/atomic"
@@ -45,6 +46,7 @@ func (r *run) log(m map[string]interface{}) {
 type scenario struct {
 	Limit   int    `json:"limit"`
 	Panics  []bool `json:"panics"`  // per task: panics instead of returning
+	Ends    []int  `json:"ends"`    // per task, when it does not panic with a value: 0 return, 2 runtime.Goexit(), 3 panic(nil)
 	Blocks  []bool `json:"blocks"`  // per task: waits for its gate (others run straight through)
 	Order   []int  `json:"order"`   // order in which gates are opened
 	WaitAt  int    `json:"wait_at"` // Wait() is called after this many submissions returned (>= len: after all)
@@ -90,6 +92,17 @@ func runScenario(sc scenario, out func(map[string]interface{})) {
 			atomic.AddInt32(&exited, 1)
 			if panics {
 				panic(i)
+			}
+			// other ways for a function to end without returning normally: no panic value reaches the handler,
+			// the slot must come back all the same
+			if i-1 < len(sc.Ends) {
+				switch sc.Ends[i-1] {
+				case 2:
+					runtime.Goexit()
+				case 3:
+					var nothing interface{}
+					panic(nothing) // (module language version < 1.21: recover() yields nil)
+				}
 			}
 		}
 	}
@@ -264,6 +277,65 @@ func timedScenario(rng *rand.Rand, out func(map[string]interface{})) {
 	r.mu.Unlock()
 }
 
+// churnScenario: many functions that return at once are submitted back to back (each completion races with
+// the next submission), then one function that blocks on a gate, then Wait(). Wait must not return before the
+// blocked function has ended - whatever happened to the bookkeeping during the churn.
+func churnScenario(rng *rand.Rand, k int, out func(map[string]interface{})) {
+	r := &run{}
+	n := 1 + rng.Intn(3)
+	r.log(map[string]interface{}{"ev": "new", "n": n, "scenario": map[string]interface{}{"churn": k, "limit": n}})
+	l := goz.NewLimiter(n)
+	l.SetPanicHandler(func(v any) { r.log(map[string]interface{}{"ev": "handler", "v": v}) })
+	gate := make(chan struct{})
+	quick := func(i int) func() {
+		return func() {
+			r.log(map[string]interface{}{"ev": "enter", "i": i})
+			r.log(map[string]interface{}{"ev": "exit", "i": i, "panic": false})
+		}
+	}
+	for i := 1; i <= k; i++ {
+		r.log(map[string]interface{}{"ev": "gocall", "i": i})
+		l.Go(quick(i))
+		r.log(map[string]interface{}{"ev": "goret", "i": i})
+		if i%7 == 0 {
+			runtime.Gosched()
+		}
+	}
+	last := k + 1
+	r.log(map[string]interface{}{"ev": "gocall", "i": last})
+	l.Go(func() {
+		r.log(map[string]interface{}{"ev": "enter", "i": last})
+		<-gate
+		r.log(map[string]interface{}{"ev": "exit", "i": last, "panic": false})
+	})
+	r.log(map[string]interface{}{"ev": "goret", "i": last})
+	waitDone := make(chan struct{})
+	go func() {
+		r.log(map[string]interface{}{"ev": "waitcall"})
+		l.Wait()
+		r.log(map[string]interface{}{"ev": "waitret"})
+		close(waitDone)
+	}()
+	// give a Wait that is going to return early the time to do so (stimulus only), then release the function
+	select {
+	case <-waitDone:
+	case <-time.After(3 * time.Millisecond):
+	}
+	close(gate)
+	select {
+	case <-waitDone:
+		r.log(map[string]interface{}{"ev": "end", "submitted": k + 1})
+	case <-time.After(patience):
+		r.log(map[string]interface{}{"ev": "stuck", "what": "Wait did not return although every function ended"})
+	}
+	r.mu.Lock()
+	sort.Slice(r.events, func(a, b int) bool { return r.events[a].at < r.events[b].at })
+	for _, e := range r.events {
+		out(e.m)
+	}
+	r.mu.Unlock()
+}
+
 func main() {
 	outp := flag.String("out", ".", "output dir")
 	n := flag.Int("n", 200, "scenarios")
@@ -286,12 +358,22 @@ func main() {
 		for i := 0; i < k; i++ {
 			sc.Panics = append(sc.Panics, rng.Intn(3) == 0)
 			sc.Blocks = append(sc.Blocks, rng.Intn(4) != 0)
+			sc.Ends = append(sc.Ends, []int{0, 0, 0, 2, 3}[rng.Intn(5)])
 		}
 		sc.Order = rng.Perm(k)
 		for i := range sc.Order {
 			sc.Order[i]++
 		}
 		sc.WaitAt = k // (Wait concurrent with Go is a misuse of the underlying WaitGroup: never done)
+		if s%40 == 7 {
+			churnScenario(rng, 300, func(m map[string]interface{}) {
+				b, _ := json.Marshal(m)
+				f.Write(b)
+				f.Write([]byte("\n"))
+				events++
+			})
+			continue
+		}
 		if s%5 == 4 {
 			timedScenario(rng, func(m map[string]interface{}) {
 				b, _ := json.Marshal(m)
